@@ -8,11 +8,13 @@
 (*          [t |-> "bool", v]   [t |-> "void"]                              *)
 (*          [t |-> "arr", es]   [t |-> "rec", ns, vs]  (by value)           *)
 (*          [t |-> "sum", k, p]  optional / enum value: current variant k   *)
-(*          (optional: 1 = payload, 2 = nil) and its payload p              *)
+(*          (optional: 1 = payload, 2 = nil; error union: 1 = value,        *)
+(*          2 = error) and its payload p                                    *)
 (*          [t |-> "ptr", d, l]  pointer: frame number d (1 = main) and a   *)
 (*          place l (variable / field / element with a numeric index) in    *)
 (*          that frame; ^ and ^mut pointers are the same value (mutability  *)
 (*          is a static matter, C14)                                        *)
+(*          [t |-> "fn", f]  function value (the function's name)           *)
 (*          [t |-> "slice", d, l, n]  slice: the array place it references  *)
 (*          (like a pointer) and its length                                 *)
 (* State:   [env |-> stack of scopes of the running function (innermost     *)
@@ -176,6 +178,14 @@ Eval(P, e, st) ==
       [] e.e = "unwrap" -> LET r == Eval(P, e.x, st) IN
                            IF r.sig # "norm" THEN r
                            ELSE IF r.v.k # e.k THEN Fault(r.st, "unwrap") ELSE Norm(r.v.p, r.st)
+      \* function values: a function's name; a call through one is a call of that function.
+      \* (Local lambdas cannot capture anything: they are functions of the program like the others.)
+      [] e.e = "fnref" -> Norm([t |-> "fn", f |-> e.f], st)
+      [] e.e = "callv" ->
+            LET f == Eval(P, e.x, st) IN
+            IF f.sig # "norm" THEN f
+            ELSE LET as == EvalList(P, e.args, 1, <<>>, f.st) IN
+                 IF as.sig # "norm" THEN as ELSE Call(P, f.v.f, as.v, as.st)
       \* pointers: ^place / ^mut place is the place itself (frame + resolved place); p^ reads it
       [] e.e = "ref" -> LET p == Resolve(P, e.l, st) IN
                         IF p.sig # "norm" THEN p ELSE Norm([t |-> "ptr", d |-> p.v.d, l |-> p.v.l], p.st)
@@ -192,11 +202,12 @@ Eval(P, e, st) ==
                         ELSE Norm(IntV(8, FALSE, FromNat(IF r.v.t = "slice" THEN r.v.n ELSE Len(r.v.es), 8)), r.st)
       [] e.e = "toarr" -> LET r == Eval(P, e.x, st) IN
                           IF r.sig # "norm" THEN r ELSE Norm(LRead(r.v.l, EnvAt(r.st, r.v.d)), r.st)
-      \* x.try on an optional: the payload, or leave the function with nil
+      \* x.try on an optional / error union (variant 1 = the value, 2 = nil / the error): the
+      \* value, or leave the function with nil / with the same error
       [] e.e = "try" -> LET r == Eval(P, e.x, st) IN
                         IF r.sig # "norm" THEN r
                         ELSE IF r.v.k = 1 THEN Norm(r.v.p, r.st)
-                        ELSE R([t |-> "sum", k |-> 2, p |-> Void], r.st, "ret", "")
+                        ELSE R([t |-> "sum", k |-> 2, p |-> r.v.p], r.st, "ret", "")
 
 (* run the deferred statements ds (in registration order) last first; their own signals are not
    propagated (the generator only defers prints and assignments) *)
